@@ -90,7 +90,6 @@ CANARIES = [
     ('cursor-seek-first-second-child', 'C08', 'src/cursor.rs', '            self.stack.push(SearchPath {\n                index: 0,\n                id: PageNodeID::Page(page_id),\n            });\n        }\n    }\n\n    // Moves', '            self.stack.push(SearchPath {\n                index: 1,\n                id: PageNodeID::Page(page_id),\n            });\n        }\n    }\n\n    // Moves'),
     ('index-no-slot-before', 'C08', 'src/page_node.rs', '                i = i.saturating_sub(1);\n', ''),
     ('index-exact-off-by-one', 'C08', 'src/page_node.rs', '            Ok(i) => (i, true),', '            Ok(i) => (i + 1, true),'),
-    ('index-page-no-bound', 'C07', 'src/page_node.rs', '                if index >= p.count as usize {\n                    return 0;\n                }\n', ''),
     ('insert-data-front', 'C07', 'src/node.rs', '                    Err(i) => leaves.insert(i, leaf),', '                    Err(_i) => leaves.insert(0, leaf),'),
     ('insert-data-duplicate', 'C07', 'src/node.rs', '                    Ok(i) => leaves[i] = leaf,', '                    Ok(i) => leaves.insert(i, leaf),'),
     ('node-delete-wrong-index', 'C07', 'src/node.rs', '            NodeData::Leaves(leaves) => leaves.remove(index),', '            NodeData::Leaves(leaves) => leaves.remove(0),'),
@@ -132,6 +131,13 @@ CANARIES = [
 
 # Semantics-PRESERVING edits: the check must NOT answer exit 1 for any of them (exit 0 or exit 2 are both acceptable).
 EQUIVALENTS = [
+    # defensive code for states a sound tree never shows (found by auditing what the mutation sweep reported, DESIGN 11.12)
+    ('eq-index-page-no-bound', 'C07', 'src/page_node.rs', '                if index >= p.count as usize {\n                    return 0;\n                }\n', ''),
+    ('eq-index-page-past-the-end-answers-one', 'C08', 'src/page_node.rs', '                if index >= n.data.len() {\n                    return 0;\n                }', '                if index >= n.data.len() {\n                    return 1;\n                }'),
+    ('eq-emptied-leaf-on-empty-stack', 'C08', 'src/cursor.rs', '                n.leaf() && e.index >= n.len()\n            }\n            None => false,', '                n.leaf() && e.index >= n.len()\n            }\n            None => true,'),
+    # which flags are on by default is a performance choice (C16)
+    ('eq-default-strict-mode-on', 'C16', 'src/db.rs', '                strict_mode: false,\n                mmap_populate: false,', '                strict_mode: true,\n                mmap_populate: false,'),
+    ('eq-default-populate-on', 'C05', 'src/db.rs', '                strict_mode: false,\n                mmap_populate: false,', '                strict_mode: false,\n                mmap_populate: true,'),
     ('eq-ceil-div-other-form', 'C16', 'src/freelist.rs', '        let num_pages = if (bytes % self.meta.pagesize) == 0 {\n            bytes / self.meta.pagesize\n        } else {\n            (bytes / self.meta.pagesize) + 1\n        };',
      '        let num_pages = bytes / self.meta.pagesize + u64::from(bytes % self.meta.pagesize != 0);'),
     ('eq-release-comparison-flipped', 'C10', 'src/freelist.rs', '            if other_tx_id < tx_id {', '            if tx_id > other_tx_id {'),
